@@ -47,6 +47,7 @@ THEOREMS = {
         "Shroud.Registry.out_independent_of_history",
         "Shroud.Registry.registries_classified",
         "Shroud.Registry.no_ambient_state",
+        "Shroud.Registry.written_file_independent_of_directory",
     ]
 }
 
@@ -161,7 +162,7 @@ def run(ctx):
         info = extract_registry.regenerate(extra_pairs=[(strip(shadow[0]), strip(shadow[1]))])
         ctx.note("translator", {k: v for k, v in info.items() if k != "ambient"})
         ctx.note("ambient_uses", info["ambient"])
-        ok = ctx.lean(MODULES, THEOREMS, extra_targets=("drv_registry",))
+        ok = ctx.lean(MODULES, THEOREMS, extra_targets=("drv_registry", "drv_lines"))
         ctx.cov["trusted_base"] = [
             "Lean 4.33.0 kernel; axioms within {propext, Classical.choice, Quot.sound}",
             "tools/extract_registry.py + tools/regprobe.py (registry enumeration by introspection, probe classification, AST scan)",
@@ -198,6 +199,42 @@ def run(ctx):
         else:
             ctx.tie_broken("update_for_language-correspondence", "driver not built")
         ctx.sample({"request": reqs[37], "impl": impl[37]})
+
+        # ---------------- (D) write_output_file into a directory that already holds a version of the file
+        from tools.props import c13 as _c13
+        ldrv = common.Driver("drv_lines")
+        PRIORS = {"prefix": lambda t: "".join(t.splitlines(True)[: max(1, len(t.splitlines()) // 2)]),
+                  "extended": lambda t: t + "stale line\nanother stale line\n",
+                  "first-line": lambda t: "".join(t.splitlines(True)[:1]),
+                  "empty": lambda t: "", "same": lambda t: t, "junk": lambda t: "unrelated\n" * 3,
+                  "no-final-newline": lambda t: t[:-1]}
+        wreqs, wimpl, wkind = [], [], []
+        for k in range(240 if thorough else 60):
+            comment = r.choice(["//", "!", "#"])
+            fname = r.choice(["wrapfoo.cpp", "wrapffoo.f", "typesfoo.h"])
+            version = r.choice(["0.12.2", "nowrite-version"])
+            copyright = [r.choice(["Copyright (c) 2017", "", "SPDX-License-Identifier: (BSD-3-Clause)"]) for _ in range(r.randrange(0, 3))]
+            items = []
+            for _ in range(r.randrange(1, 8)):
+                items.append(r.choice([1, -1]) if r.random() < 0.2 else _c13.rand_line(r).replace("\r", " "))
+            ll, sp, cont = r.choice([20, 72, 132]), "    ", r.choice(["", " &"])
+            pk = r.choice(sorted(PRIORS))
+            wreqs.append("wof %s %s %s %s %d %s %s %s" % (common.enc(comment), common.enc(fname), common.enc(version),
+                                                       common.encs(copyright) if copyright else "~", ll, common.enc(sp), common.enc(cont), _c13.enc_items(items)))
+            wimpl.append(_c13.real_wof(comment, fname, version, copyright, ll, sp, cont, items, prior=PRIORS[pk]))
+            wkind.append(pk)
+        ctx.count(len(wreqs))
+        ctx.note("wof_prior_kinds", {k: wkind.count(k) for k in sorted(set(wkind))})
+        if ok and ldrv.available():
+            wmodel = ldrv.run(wreqs)
+            bad = [{"request": q[:400], "prior": pk, "impl": a[:300], "model": b[:300]} for q, a, b, pk in zip(wreqs, wimpl, wmodel, wkind) if a != b]
+            for q, a in zip(wreqs, wimpl):
+                if a.count(";") >= 3:
+                    ctx.nontrivial(("wof-prior", q[:80]))
+            if bad:
+                ctx.tie_broken("write_output_file-into-populated-directory", bad[:5])
+        else:
+            ctx.tie_broken("write_output_file-into-populated-directory", "driver not built")
 
         # ---------------- oracle: byte comparison of output directories
         libs = [{"corpus": n} for n in (QUICK_LIBS if not thorough else [c[0] for c in shroudrun.CORPUS])]
